@@ -254,7 +254,7 @@ class Runner:
         plan = {
             "scenario": NAME, "cls": cls,
             "policy_key": rng.getrandbits(31), "learn_key": rng.getrandbits(31), "total": rng.choice(self.totals),
-            "ops": ["baseline", "repeat", "other_key", "observed"],
+            "ops": ["baseline", "repeat", "other_key", "observed"] + (["spy_targets"] if (prop == "C10" and cls["algo"] in ("DQN", "SAC")) else []),
             "faults": [],
         }
         if cls["env"].startswith("sim") or cls["env"] == "gym_peer":
@@ -269,6 +269,7 @@ class Runner:
         if prop == "C11" and rng.random() < cls.get("p_fresh", 0.1):
             plan["ops"].append("fresh_process")
             plan["hashseed"] = rng.choice(["0", "1", "12345", "random"])
+            plan["child_imports"] = rng.choice(["none", "all"])
         return plan
 
     def shrink_candidates(self, plan: dict):
@@ -363,20 +364,87 @@ class Runner:
                     res.ok("C11", "key_matters")
             elif op == "observed" and base is not None and self.observer is not None:
                 self._observed(res, props, plan, env, policy, total, key, base, iters)
+            elif op == "spy_targets" and base is not None and cls["algo"] in ("DQN", "SAC") and iters >= 2 and "C10" in props:
+                self._spy_targets(res, env, policy, total, key, iters)
             elif op == "fresh_process" and base is not None:
                 d = self._fresh_process(plan)
                 res.faults["F.fresh_process"] += 1
                 if plan.get("hashseed") not in (None, "0"):
                     res.faults["F.hashseed"] += 1
+                if plan.get("child_imports") == "all":
+                    res.faults["F.whole_library_imported_first"] += 1
                 tr.ev("fresh_process", digest=(d or "")[:16])
                 if d is None:
                     raise RuntimeError("fresh-process child failed")
                 if d != leaves_digest(base):
-                    res.fail("C11", "fresh_process_bit_identical", "fresh_interpreter_differs", hashseed=plan.get("hashseed"))
+                    res.fail("C11", "fresh_process_bit_identical", "fresh_interpreter_differs", hashseed=plan.get("hashseed"), child_imports=plan.get("child_imports"))
                 else:
                     res.ok("C11", "fresh_process_bit_identical")
             res.steps += iters * n * T
         return res
+
+    def _spy_targets(self, res, env, policy, total, key, iters):
+        """Target networks observed from inside `learn()`: the state each iteration starts from (C10, second and third sentence)."""
+        from ..world.observers import TargetSpy
+
+        sink: list = []
+        if getattr(self, "_tspy", None) is None:
+            self._tspy = TargetSpy(sink)
+        spy = self._tspy
+        spy.sink.clear()
+        out = self.algo.learn(env, policy, total, key=key, callback=spy)
+        jax.block_until_ready(out)
+        jax.effects_barrier()
+        recs = list(spy.sink)
+        res.trace.ev("spy_targets", n=len(recs), counts=[r.get("count") for r in recs])
+        if any(r.get("missing") for r in recs) or not recs:
+            res.probes["algorithm_state_not_visible_to_callbacks"] += 1
+            return
+        # a record made in on_iteration shows the state AFTER the update of iteration c (count c, online theta_c) and BEFORE the
+        # per-iteration target maintenance (target still T_{c-1}); the record of on_training_end shows the final state (theta_last, T_last)
+        its = [r for r in recs if r["where"] == "iteration"]
+        end = [r for r in recs if r["where"] == "end"]
+        res.events["E.targets_observed_inside_learn"] += 1
+        counts = [r["count"] for r in its]
+        if counts not in (list(range(1, len(its) + 1)), list(range(0, len(its)))) or len(its) != iters or (end and end[-1]["count"] != len(its)):
+            res.fail("C10", "iteration_counter", "counter_not_advanced_by_one_inside_learn", counts=counts, end=[r["count"] for r in end], expected_iterations=iters)
+            return
+        res.ok("C10", "iteration_counter")
+        # Two readings of a record are legitimate (where in the iteration the callback is invoked is not part of the property):
+        # (A) before the target maintenance of that iteration (target = T_{c-1}), (B) after it (target = T_c).  The property holds
+        # iff ONE reading explains every record; the unchanged tree is (A).
+        f64 = lambda x: x.astype(np.float64)  # noqa: E731
+        if self.cls["algo"] == "SAC":
+            tau = float(self.algo.tau)
+
+            def polyak_ok(theta, old, new):
+                want = tau * f64(theta) + (1.0 - tau) * f64(old)
+                return float(np.max(np.abs(f64(new) - want))) <= 2e-6 * max(1.0, float(np.max(np.abs(want))))
+
+            read_a = all(polyak_ok(a["online"], a["target"], b["target"]) for a, b in zip(its, its[1:])) and (not end or polyak_ok(its[-1]["online"], its[-1]["target"], end[-1]["target"]))
+            read_b = all(polyak_ok(b["online"], a["target"], b["target"]) for a, b in zip(its, its[1:])) and (not end or np.array_equal(its[-1]["target"], end[-1]["target"]))
+            if not (read_a or read_b):
+                res.fail("C10", "sac_polyak_once", "not_one_polyak_step_per_iteration_of_learn", iterations=len(its), tau=tau)
+            else:
+                res.ok("C10", "sac_polyak_once", len(its))
+        else:
+            interval = int(self.algo.target_update_interval)
+            online_at = {r["count"]: r["online"] for r in its}
+
+            def frozen_ok(views):
+                for c, target in views:  # target network in force after iteration c was completed (incl. its sync)
+                    j = (c // interval) * interval
+                    if j and not np.array_equal(target, online_at[j]):
+                        return False
+                return True
+
+            tail = [(end[-1]["count"], end[-1]["target"])] if end else []
+            read_a = frozen_ok([(r["count"] - 1, r["target"]) for r in its] + tail)
+            read_b = frozen_ok([(r["count"], r["target"]) for r in its] + tail)
+            if not (read_a or read_b):
+                res.fail("C10", "dqn_target_frozen_between", "target_inside_learn_is_not_the_online_network_of_the_last_sync", iterations=len(its), interval=interval)
+            else:
+                res.ok("C10", "dqn_target_frozen_between", len(its))
 
     def _observed(self, res, props, plan, env, policy, total, key, base, iters):
         cls = self.cls
